@@ -784,7 +784,7 @@ def rule_R5(ctx, repo, flow):
         if isinstance(n, ast.Call) and astq.call_name(n) == "update" and n.args and isinstance(n.args[0], ast.Name):
             vals = astq.assigned_values(gp, n.args[0].id)
             upd = bool(vals) and all(isinstance(v, ast.Call) and astq.call_name(v) == "getattr" and dotted(v.args[1]) == "attr" for v in vals)
-        if isinstance(n, ast.Subscript) and isinstance(n.ctx, ast.Store) and dotted(n.value) == "out":
+        if isinstance(n, ast.Subscript) and isinstance(n.ctx, ast.Store) and dotted(n.value) == _param_dict_name(gp):
             key = n.slice
             s = _format_sep(key)
             if s is not None:
@@ -890,10 +890,12 @@ def _meta_exact(ctx, repo, meta, mod, gp, sp):
     """Exact clauses on the nested get/set helpers, read off path conditions and dataflow."""
     from ..boolx import Atomizer as At, PathConditions as PC, equivalent as eqv, atom as A, neg as N, show as sh
     # _get_params: the component expansion runs exactly when `deep` is on, and the same dict is returned on every path
+    outn = _param_dict_name(gp)
+
     def _expands(st):
         return not isinstance(st, (ast.If, ast.For, ast.While, ast.With, ast.Try)) and (
-            any(astq.call_name(c) == "update" and isinstance(c.func, ast.Attribute) and dotted(c.func.value) == "out" for c in astq.calls(st))
-            or (isinstance(st, ast.Assign) and any(isinstance(t, ast.Subscript) and dotted(t.value) == "out" for t in st.targets)))
+            any(astq.call_name(c) == "update" and isinstance(c.func, ast.Attribute) and dotted(c.func.value) == outn for c in astq.calls(st))
+            or (isinstance(st, ast.Assign) and any(isinstance(t, ast.Subscript) and dotted(t.value) == outn for t in st.targets)))
     pc = PC(gp, At(), mark=_expands)
     loc = ctx.loc(mod, gp)
     if not pc.marked or not pc.return_sites:
@@ -903,7 +905,7 @@ def _meta_exact(ctx, repo, meta, mod, gp, sp):
         from itertools import product as _prod
         bad = None
         for st, _c in pc.return_sites:
-            if dotted(st.value) != "out":
+            if dotted(st.value) != outn:
                 bad = "returns `%s`, not the parameter dict" % (ast.unparse(st.value) if st.value is not None else None)
         upd = [c for st, c in pc.marked if any(astq.call_name(x) == "update" for x in astq.calls(st))]
         cond = ("const", False)
@@ -1089,6 +1091,16 @@ def _reaching_def(stmts, target_stmt, name):
                 if r is not None:
                     return r
     return None
+
+
+def _param_dict_name(gp):
+    """Local name of the parameter dict of a get-params helper: the variable bound to ``super().get_params(...)``."""
+    for n in astq.walk_no_nested(gp):
+        if isinstance(n, ast.Assign) and len(n.targets) == 1 and isinstance(n.targets[0], ast.Name) and isinstance(n.value, ast.Call) \
+                and astq.call_name(n.value) == "get_params" and isinstance(n.value.func, ast.Attribute) \
+                and isinstance(n.value.func.value, ast.Call) and dotted(n.value.func.value.func) == "super":
+            return n.targets[0].id
+    return "out"
 
 
 def _format_sep(key):
